@@ -190,8 +190,12 @@ func run(c *Ctx) {
 func runScenario(c *Ctx, im *Impl, cf *CaseFile, s *scenario) {
 	r := c.Rng
 	w, err := newWorld(s.name, names(s.n), s.links, s.maxHops, s.phantoms)
+	if err != nil { // a bounded wait ran out: once more on a fresh mesh before it counts
+		im.Hist("scenario-setup-repeated")
+		w, err = newWorld(s.name, names(s.n), s.links, s.maxHops, s.phantoms)
+	}
 	if err != nil {
-		im.Violate("scenario "+s.name+": "+err.Error(), "mesh-no-convergence", s.name)
+		im.Violate("scenario "+s.name+" (second attempt): "+err.Error(), "mesh-no-convergence", s.name)
 		return
 	}
 	defer w.close()
@@ -245,11 +249,14 @@ func runScenario(c *Ctx, im *Impl, cf *CaseFile, s *scenario) {
 					w.reinject()
 				}
 			}
-			if (!c.Thorough() || h <= int(s.maxHops)+2 || h == 255) && w.timeouts[p] < 2 && !w.isRunaway() {
+			if (!c.Thorough() || h <= int(s.maxHops)+2 || h == 255) && w.timeouts[p] < 1 && !w.isRunaway() {
 				pingCase(c, im, cf, w, s, src, dst, h, d)
 			}
 		}
-		if !w.isRunaway() {
+		if !w.isRunaway() && (w.timeouts[p] == 0 || w.silentTraces < 1) { // unanswered pairs: one traceroute per scenario
+			if w.timeouts[p] > 0 {
+				w.silentTraces++
+			}
 			traceCase(c, im, cf, w, s, src, dst, d)
 		}
 	}
@@ -298,6 +305,31 @@ func sendCase(c *Ctx, im *Impl, cf *CaseFile, w *world, s *scenario, src, dst, f
 		err = n.SendMessageWithHopsToLive(fsvc, dst, tsvc, payload, byte(h))
 	}
 	w.awaitEnd(src, fsvc, err != nil)
+	// On converged tables the property itself says what must still come (the delivery, or the expiry
+	// notice at the sending socket): give that a generous time before anything is judged or recorded,
+	// so that a slow machine cannot turn a late but correct event into a verdict.
+	if !s.loopy && d >= 0 && tsvc == "svc" && err == nil {
+		patience := 10 * time.Second
+		if w.longWaits >= 3 { // it is established by now that the event does not come
+			patience = 300 * time.Millisecond
+		}
+		got := true
+		if d <= h {
+			got = w.waitUntil(patience, func() bool { return len(w.dlvs) > 0 })
+		} else if fsvc == "src" && h <= int(s.maxHops) {
+			got = w.waitUntil(patience, func() bool {
+				for _, x := range w.sockNtfs {
+					if x.Node == src {
+						return true
+					}
+				}
+				return false
+			})
+		}
+		if !got {
+			w.longWaits++
+		}
+	}
 	if w.isRunaway() {
 		im.Violate(fmt.Sprintf("send %s %s:%s -> %s:%s hops=%d: more than 2000 data packets on the links, forwarding does not stop", s.name, src, fsvc, dst, tsvc, h),
 			"hop-bound-exceeded", map[string]interface{}{"scenario": s.name, "src": src, "fsvc": fsvc, "dst": dst, "tsvc": tsvc, "hops": h, "maxHops": s.maxHops})
@@ -476,9 +508,7 @@ func pingCase(c *Ctx, im *Impl, cf *CaseFile, w *world, s *scenario, src, dst st
 		w.reinject()
 	}
 	desc := w.desc(nil)
-	ctx, cancel := context.WithTimeout(context.Background(), 250*time.Millisecond)
-	_, from, err := w.mesh.Nodes[src].Ping(ctx, dst, byte(h))
-	cancel()
+	from, err := patientPing(context.Background(), w.mesh.Nodes[src], dst, byte(h), im)
 	w.settle()
 	if w.injected != nil && !w.tablesIntact() {
 		w.reinject()
@@ -508,6 +538,24 @@ func pingCase(c *Ctx, im *Impl, cf *CaseFile, w *world, s *scenario, src, dst st
 	w.reset()
 }
 
+// patientPing: a ping that gets no answer within 250 ms is repeated once with 750 ms; only two silences
+// in a row count as "no answer" (a loaded machine can take longer than the first bound).
+func patientPing(ctx context.Context, n *netceptor.Netceptor, target string, h byte, im *Impl) (string, error) {
+	ctx1, cancel1 := context.WithTimeout(ctx, 250*time.Millisecond)
+	_, from, err := n.Ping(ctx1, target, h)
+	cancel1()
+	if err != nil && (strings.Contains(err.Error(), "user cancelled") || strings.Contains(err.Error(), "timeout")) {
+		ctx2, cancel2 := context.WithTimeout(ctx, 750*time.Millisecond)
+		_, from2, err2 := n.Ping(ctx2, target, h)
+		cancel2()
+		if im != nil && (err2 == nil || !(strings.Contains(err2.Error(), "user cancelled") || strings.Contains(err2.Error(), "timeout"))) {
+			im.Hist("ping:late-answer-on-second-attempt")
+		}
+		return from2, err2
+	}
+	return from, err
+}
+
 type recPing struct {
 	w    *world
 	n    *netceptor.Netceptor
@@ -519,9 +567,8 @@ type recPing struct {
 func (p *recPing) MaxForwardingHops() byte  { return p.n.MaxForwardingHops() }
 func (p *recPing) Context() context.Context { return p.n.Context() }
 func (p *recPing) Ping(ctx context.Context, target string, hopsToLive byte) (time.Duration, string, error) {
-	ctx2, cancel := context.WithTimeout(ctx, 250*time.Millisecond)
-	defer cancel()
-	d, from, err := p.n.Ping(ctx2, target, hopsToLive)
+	from, err := patientPing(ctx, p.n, target, hopsToLive, nil)
+	d := time.Duration(0)
 	t, k := pingRes(p.w, p.self, from, err)
 	p.raw = append(p.raw, t)
 	p.kind = append(p.kind, k)
@@ -562,6 +609,19 @@ func traceCase(c *Ctx, im *Impl, cf *CaseFile, w *world, s *scenario, src, dst s
 		cancel()
 		w.settle()
 		w.resnapshot() // this second run is activity of its own, not a late echo of the recorded one
+		if strings.Join(hops2, ",") != strings.Join(hops, ",") || (lastErr2 == nil) != (lastErr == nil) {
+			// its pings wait 10 s, the context 3 s: once more, with time, before it counts
+			hops2, lastErr2 = nil, nil
+			ctx, cancel := context.WithTimeout(context.Background(), 20*time.Second)
+			for res := range w.mesh.Nodes[src].Traceroute(ctx, dst) {
+				hops2 = append(hops2, res.From)
+				lastErr2 = res.Err
+			}
+			cancel()
+			w.settle()
+			w.resnapshot()
+			im.Hist("traceroute:method-repeated")
+		}
 		if strings.Join(hops2, ",") != strings.Join(hops, ",") || (lastErr2 == nil) != (lastErr == nil) {
 			im.Violate(fmt.Sprintf("%s: Netceptor.Traceroute returns %v (err %v), CreateTraceroute over the same node returned %v (err %v)", label, hops2, lastErr2, hops, lastErr),
 				"traceroute-method-differs", replay)
